@@ -178,6 +178,18 @@ pub enum Op {
     AssertLast(i64),
     /// shuttle::current::reset_step_count(): observes the number of steps recorded so far
     ResetSteps,
+    // ---- statics (never part of model-based checks) -----------------------------------------
+    /// access thread-local key k (0..3) of the interpreter's static pool: 1 if the value seen belongs
+    /// to this task, 0 if it belongs to another task (!), -1 if access is refused (destroyed)
+    Tls(usize),
+    /// deref lazy_static k (0..2): logical task that ran its initializer in this execution
+    Lazy(usize),
+    /// call_once on a `static Once`: 1 if this call ran the initializer
+    StaticOnce,
+    /// set this task's `Tag`-like label (a typed label) to v: previous value or -1
+    Label(i64),
+    /// thread::scope: spawn the listed tasks as scoped threads and wait for them: 0
+    Scope(Vec<usize>),
 }
 
 #[derive(Clone, Debug, Serialize, Deserialize, PartialEq, Eq, Hash)]
@@ -304,7 +316,25 @@ impl Prog {
                             return Err(format!("task {ti} op {pc}: skip beyond end"));
                         }
                     }
-                    Op::Yield | Op::Park | Op::AcqFinish | Op::AcqDrop | Op::AssertLast(_) | Op::ResetSteps => {}
+                    Op::Tls(k) => {
+                        if *k >= 3 {
+                            return bad("tls key");
+                        }
+                    }
+                    Op::Lazy(k) => {
+                        if *k >= 2 {
+                            return bad("lazy static");
+                        }
+                    }
+                    Op::Scope(cs) => {
+                        for c in cs {
+                            if *c >= nt || *c == 0 {
+                                return bad("task");
+                            }
+                            spawned[*c] += 1;
+                        }
+                    }
+                    Op::Yield | Op::Park | Op::AcqFinish | Op::AcqDrop | Op::AssertLast(_) | Op::ResetSteps | Op::StaticOnce | Op::Label(_) => {}
                 }
             }
         }
